@@ -168,15 +168,16 @@ def boundary_points(wcs, W, H, per_pixel=40):
 def exec_image(case):
     W, H = case["size"]
     planetary = False
-    with toasty_call("filter-factory", f"WcsSampler({W}x{H}).filter()"):
-        ws, wcs, data = image_setup(case)
-        with warnings.catch_warnings():
-            warnings.simplefilter("ignore")
-            flt = ws.filter()
+    ws, wcs, data = image_setup(case)
     px, py, blon, blat = boundary_points(wcs, W, H)
     ok = np.isfinite(blon) & np.isfinite(blat)
     if not ok.all():
+        # part of the pixel grid has no sky position (outside the projection's domain): not an image footprint
         return Outcome(classes=["image", "footprint-leaves-projection-domain"], nontrivial=False)
+    with toasty_call("filter-factory", f"WcsSampler({W}x{H}).filter() for wcs {case['wcs']}"):
+        with warnings.catch_warnings():
+            warnings.simplefilter("ignore")
+            flt = ws.filter()
     ulon = np.unwrap(blon)
     scale_deg = case["wcs"]["scale"]
     what0 = f"WcsSampler filter of a {W}x{H} image, wcs {case['wcs']}"
